@@ -213,22 +213,29 @@ theorem filterMap_delRule (l : List Rule) :
   | nil => rfl
   | cons x xs ih => simp [ordOf, ih]
 
+theorem phase1Step_del (diff : Differ) (fuel : Nat) (aRules bRules : List Rule) (st : St) (d : Nat)
+    (ins : List InsGroup) (r : Range) (hk : r.kind = .del) :
+    phase1Step diff fuel aRules bRules (st, d, ins) r =
+      (st.emitAll ((aRules.extract r.lowA r.highA).map (fun ru => Cmd.delRule ru.name)), r.highA, ins) := by
+  unfold phase1Step; simp only [hk]
+
+theorem phase1Step_ins (diff : Differ) (fuel : Nat) (aRules bRules : List Rule) (st : St) (d : Nat)
+    (ins : List InsGroup) (r : Range) (hk : r.kind = .ins) :
+    phase1Step diff fuel aRules bRules (st, d, ins) r =
+      (st, d, ins ++ [⟨(aRules[max r.lowA d]?).map (·.name), r.lowB, r.highB⟩]) := by
+  unfold phase1Step; simp only [hk]
+
+theorem phase1Step_eq (diff : Differ) (fuel : Nat) (aRules bRules : List Rule) (st : St) (d : Nat)
+    (ins : List InsGroup) (r : Range) (hk : r.kind = .eq) :
+    phase1Step diff fuel aRules bRules (st, d, ins) r =
+      ((List.range (r.highA - r.lowA)).foldl (fun st k =>
+        equalize diff fuel st (aRules.getD (r.lowA + k) default) (bRules.getD (r.lowB + k) default)) st, d, ins) := by
+  unfold phase1Step; simp only [hk]
+
 /-- The order-relevant requests of the first loop, and the insert groups it collects. -/
 theorem rulePhase1_ord (diff : Differ) (fuel : Nat) (a b : Vsys) (aRules bRules : List Rule) :
     ∀ (rs : List Range) (st : St) (d : Nat) (ins : List InsGroup),
-      let res := rs.foldl (fun (acc : St × Nat × List InsGroup) r =>
-        let (st, delIdx, inserts) := acc
-        match r.kind with
-        | .del =>
-          (st.emitAll ((aRules.extract r.lowA r.highA).map (fun ru => Cmd.delRule ru.name)), r.highA, inserts)
-        | .ins =>
-          let aPos := max r.lowA delIdx
-          let anchor := (aRules[aPos]?).map (·.name)
-          (st, delIdx, inserts ++ [⟨anchor, r.lowB, r.highB⟩])
-        | .eq =>
-          let st := (List.range (r.highA - r.lowA)).foldl (fun st k =>
-            equalize diff fuel st (aRules.getD (r.lowA + k) default) (bRules.getD (r.lowB + k) default)) st
-          (st, delIdx, inserts)) (st, d, ins)
+      let res := rs.foldl (phase1Step diff fuel aRules bRules) (st, d, ins)
       res.1.out.filterMap ordOf =
           st.out.filterMap ordOf ++ (delNamesOf (ruleNames aRules) rs).map OrdOp.del ∧
         res.2.2 = ins ++ insGroupsFrom (ruleNames aRules) d rs := by
@@ -241,6 +248,7 @@ theorem rulePhase1_ord (diff : Differ) (fuel : Nat) (a b : Vsys) (aRules bRules 
     cases hk : r.kind with
     | del =>
       simp only [delNamesOf, insGroupsFrom, hk]
+      rw [phase1Step_del _ _ _ _ _ _ _ _ hk]
       have := ih (st.emitAll ((aRules.extract r.lowA r.highA).map (fun ru => Cmd.delRule ru.name))) r.highA ins
       simp only at this
       refine ⟨?_, this.2⟩
@@ -251,6 +259,7 @@ theorem rulePhase1_ord (diff : Differ) (fuel : Nat) (a b : Vsys) (aRules bRules 
       rw [filterMap_delRule, extract_map_name]
     | ins =>
       simp only [delNamesOf, insGroupsFrom, hk]
+      rw [phase1Step_ins _ _ _ _ _ _ _ _ hk]
       have := ih st d (ins ++ [⟨(aRules[max r.lowA d]?).map (·.name), r.lowB, r.highB⟩])
       simp only at this
       refine ⟨this.1, ?_⟩
@@ -258,6 +267,7 @@ theorem rulePhase1_ord (diff : Differ) (fuel : Nat) (a b : Vsys) (aRules bRules 
       simp [ruleNames]
     | eq =>
       simp only [delNamesOf, insGroupsFrom, hk]
+      rw [phase1Step_eq _ _ _ _ _ _ _ _ hk]
       have hext : Ext st ((List.range (r.highA - r.lowA)).foldl (fun st k =>
           equalize diff fuel st (aRules.getD (r.lowA + k) default) (bRules.getD (r.lowB + k) default)) st) := by
         generalize List.range (r.highA - r.lowA) = ks
@@ -271,6 +281,35 @@ theorem rulePhase1_ord (diff : Differ) (fuel : Nat) (a b : Vsys) (aRules bRules 
       simp only at this
       refine ⟨?_, this.2⟩
       rw [this.1, hext.ord]
+
+theorem insertRule_out (anchor : Option String) (st : St) (ru : Rule) :
+    ∃ src dst, (insertRule anchor st ru).out = st.out ++
+      (Cmd.setRule { ru with src := src, dst := dst } ::
+        (match anchor with | some d => [Cmd.move ru.name d] | none => [])) := by
+  unfold insertRule
+  have h1 := adaptGroups_out st ru.src
+  revert h1
+  generalize adaptGroups st ru.src = r1
+  obtain ⟨src, s1⟩ := r1
+  intro h1
+  simp only at h1 ⊢
+  have h2 := adaptGroups_out s1 ru.dst
+  revert h2
+  generalize adaptGroups s1 ru.dst = r2
+  obtain ⟨dst, s2⟩ := r2
+  intro h2
+  simp only at h2 ⊢
+  refine ⟨src, dst, ?_⟩
+  cases anchor with
+  | none => simp [St.emit, h2, h1]
+  | some d => simp [St.emit, h2, h1]
+
+theorem insertRule_ord (anchor : Option String) (st : St) (ru : Rule) :
+    (insertRule anchor st ru).out.filterMap ordOf = st.out.filterMap ordOf ++
+      (OrdOp.app ru.name :: (match anchor with | some d => [OrdOp.mv ru.name d] | none => [])) := by
+  obtain ⟨src, dst, h⟩ := insertRule_out anchor st ru
+  rw [h]
+  cases anchor <;> simp [List.filterMap_append, ordOf]
 
 /-- The order-relevant requests of the second loop. -/
 theorem rulePhase2_ord (bRules : List Rule) :
@@ -288,26 +327,14 @@ theorem rulePhase2_ord (bRules : List Rule) :
     simp only [insOps, List.flatMap_cons, insOpsOfGroup, ← List.append_assoc]
     congr 1
     rw [← extract_map_name]
+    unfold insertGroup
     generalize bRules.extract g.lowB g.highB = l
     induction l generalizing st with
     | nil => simp
     | cons ru l ihl =>
       simp only [List.foldl_cons, List.map_cons, List.flatMap_cons]
-      rw [ihl]
-      have h1 := adaptGroups_out st ru.src
-      revert h1
-      generalize adaptGroups st ru.src = r1
-      obtain ⟨src, s1⟩ := r1
-      intro h1
-      have h2 := adaptGroups_out s1 ru.dst
-      revert h2
-      generalize adaptGroups s1 ru.dst = r2
-      obtain ⟨dst, s2⟩ := r2
-      intro h2
-      simp only at h1 h2 ⊢
-      cases g.anchor with
-      | none => simp [St.emit, List.filterMap_append, ordOf, h2, h1]
-      | some d => simp [St.emit, List.filterMap_append, ordOf, h2, h1]
+      rw [ihl, insertRule_ord]
+      cases g.anchor <;> simp [List.append_assoc]
 
 /-- **The order-relevant requests of `diffRules` are `orderOps` of the script.** -/
 theorem diffRules_ord (diff : Differ) (fuel : Nat) (st : St) (a b : Vsys) (aRules bRules : List Rule) :
